@@ -643,7 +643,7 @@ func caseAt(seed int64, i int) *Case {
 		c.K = "append"
 		c.Req.N = Num(g.n(6000))
 		if g.chance(70) {
-			c.data.Append = []AppendData{{UID: g.u32(), UIDVal: g.u32()}}
+			c.data.Append = []AppendData{{UID: g.nz32(), UIDVal: g.u32()}} // a UID is never zero
 		}
 	case k < 92:
 		c.K = "expunge"
